@@ -14,7 +14,7 @@
 From Apko Require Import Base.Prelude Model.Caches Spec.CachesSpec Proofs.CachesProofs
   Model.CachesBridge Proofs.CachesBridgeProofs.
 From Apko Require Model.Version Model.Resolver Generated.C08Caches Proofs.ResolveProofs Proofs.ResolveProofs2 Proofs.ResolveInstallIf.
-From Apko Require Import Model.CachesClone Proofs.CachesCloneProofs Model.CachesIndex Proofs.CachesIndexProofs.
+From Apko Require Import Model.CachesClone Proofs.CachesCloneProofs Proofs.CachesCloneShapes Model.CachesIndex Proofs.CachesIndexProofs.
 From Apko Require Proofs.ResolveInstallIf2.
 From Coq Require Import Permutation.
 Open Scope string_scope. Open Scope list_scope.
@@ -373,6 +373,27 @@ Example c08_clone_fresh_example :
   result_after_g ex_names ex_none ex_dq ex_key _ toy_core (fun l => l) (clone_by_shape C08Caches.clone_shape) [ex_call ["a"]] (ex_call ["a"; "b"])
     = [Some (0, 0); Some (0, 2)].
 Proof. split; [exact clone_by_shape_code | split; [intros c' _ _; reflexivity | vm_compute; reflexivity]]. Qed.
+
+(* ... and for EVERY shape of the literal that keeps indexes / nameMap / installIfMap
+   (shared or copied) and renews selected (a copy or an empty map): what matters in
+   Clone is that `selected` is not the prototype's; the maps.Clone of the two maps
+   is not needed for purity as long as the core never writes them (the frame
+   hypothesis).  The frame proof redone over an arbitrary clone function
+   (CachesCloneShapes.CloneOk). *)
+Theorem c08_clone_fresh_every_good_shape : forall mk_names mk_iif dq_diff dkey R core shape,
+  good_shape shape = true ->
+  CoreWritesOnlyOwned R core -> CoreKeepsLength R core -> CoreReadsThroughHandles R core ->
+  forall hist c,
+    GroupingCompatible dq_diff dkey hist c ->
+    result_after_g mk_names mk_iif dq_diff dkey R core (fun l => l) (clone_by_shape shape) hist c =
+    result_direct mk_names mk_iif dq_diff R core c.
+Proof. exact clone_fresh_good_shapes. Qed.
+Print Assumptions c08_clone_fresh_every_good_shape.
+Example c08_clone_fresh_every_good_shape_example :
+  good_shape C08Caches.clone_shape = true /\
+  good_shape [("indexes", "shared"); ("installIfMap", "shared"); ("nameMap", "shared"); ("selected", "fresh-empty")] = true /\
+  good_shape [("indexes", "shared"); ("installIfMap", "maps.Clone"); ("nameMap", "maps.Clone"); ("selected", "shared")] = false.
+Proof. repeat split; reflexivity. Qed.
 
 (* [refuted] with `selected: p.selected` in the literal the statement is false (the
    second resolution skips what the first selected) - while a COPY of the
